@@ -235,7 +235,7 @@ func TestVerifC16(t *testing.T) {
 				}
 				probe(e)
 			}
-			c.Outcome(strings.Join(hist, ","))
+			c.Outcome(fmt.Sprintf("last=%s connected=%v subs=%s persisted=%s conns=%d", hist[len(hist)-1], ref.current >= 0, setStr(ref.subs), setStr(ref.persisted), len(conns)))
 		}
 		job := mc.Job{Name: "event-sequences",
 			Run: func(r *mc.Result, env *mc.Env) {
